@@ -32,7 +32,7 @@ ASSUMPTIONS = ["no faults are injected in this check (see C20)",
                "the `lock` field is excluded: _get_instance_state deliberately externalises it as False",
                "every compared instance has a session when GET /save-state is called"]
 FAULT_KINDS = []
-PROBES = ["save_state_after_eviction", "second_session_in_instance", "loaded_via_timeout", "loaded_via_load_state", "loaded_via_restart", "saved_via_save_state", "compressed_mode",
+PROBES = ["second_save_load_cycle", "live_instance_diverged_from_saved", "save_state_after_eviction", "second_session_in_instance", "loaded_via_timeout", "loaded_via_load_state", "loaded_via_restart", "saved_via_save_state", "compressed_mode",
           "step_without_body", "step_with_empty_settings", "nonuniform_settings", "decimal_dt"]
 EXHAUSTIVE = {"quick": False, "thorough": False}
 
@@ -115,7 +115,13 @@ def generate(spec):
             while ops and ops[-1]["op"] == "results":
                 ops.pop()
         insts.append({"timeout": {"seconds": 30}, "ops": ops})
-    return {"property": PROPERTY,
+    more = None
+    if rng.random() < 0.3:
+        more = [{"op": "step", "settings": copy.deepcopy(fixed) if uniform else rng.choice([{}, _sett(rng, template, "base")])}
+                for _ in range(rng.choice([1, 2]))]
+    extra = {"more": more, "load_route2": rng.choice(["timeout", "load_state", "restart"]),
+             "diverge": rng.choice([None, None, "end", "begin"])}
+    return {"property": PROPERTY, **extra,
             "config": {"adapter": adapter,
                        "model": {"template": template, "start": start, "stop": stop, "dt": dt,
                                  "managers": {"smA": {"base": {}, "alt": {"constants": {"constant": 2.0} if template == "T1" else {"drain": 1.0}}}}}},
@@ -179,7 +185,6 @@ def execute(case):
     log = EventLog()
     res = RunResult()
     cfg = case["config"]
-    compared = 0
     with ServerWorld({"model": cfg["model"], "adapter": cfg["adapter"], "threads": "serial"}, log, res) as w:
         w.boot()
         ids = []
@@ -220,85 +225,114 @@ def execute(case):
                     res.violate("C19.3-request-failed-with-adapter", {"inst": j, "op_index": n, "op": o["op"],
                                                                       "settings_is_none": o.get("settings", 0) is None,
                                                                       "status": r.status, "adapter": cfg["adapter"]})
-        # ---- before
-        def observe(iid):
-            a = w.get("/%s/session-results" % iid)
-            b = w.get("/%s/flat-session-results" % iid)
-            return [a.status, a.body if a.body is not None else a.text, b.status, b.body if b.body is not None else b.text]
+        compared = [0]
 
-        before = {}
-        state_before = {}
-        for j, iid in enumerate(ids):
-            b = w.bptk_of(iid)
-            state_before[j] = norm(copy.deepcopy(b.session_state)) if b is not None and b.session_state else None
-            before[j] = observe(iid)
-        if case["save_route"] == "save_state":
-            r = w.get("/save-state")
-            res.probe("saved_via_save_state")
-            log.add("save_state", r.status)
-            if r.status != 200:
-                res.violate("C19.3-request-failed-with-adapter", {"op": "save-state", "status": r.status})
-        # (0) saving does not disturb the live instance
-        for j, iid in enumerate(ids):
-            now = observe(iid)
-            b = w.bptk_of(iid)
-            live = norm(copy.deepcopy(b.session_state)) if b is not None and b.session_state else None
-            if now != before[j] or _strip(live) != _strip(state_before[j]):
-                res.violate("C19.0-save-disturbed-live-instance", {"inst": j, "before": str(before[j])[:200], "after": str(now)[:200]})
-        externalised = {j for j, iid in enumerate(ids) if ("/state/%s.json" % iid) in w.fs.files}
-        # ---- load
-        route = case["load_route"]
-        if route == "timeout":
-            w.clock.advance(31 * 10**6)
-            w.get("/metrics", auth=False)
-            res.probe("loaded_via_timeout")
-        elif route == "timeout_then_save_state":
-            # the instances leave memory first, THEN somebody saves the whole server (which now holds nothing, or only
-            # a fresh instance): the externalised state of the evicted instances must survive that
-            w.clock.advance(31 * 10**6)
-            w.get("/metrics", auth=False)
-            if rng_bit(case):
-                rr = w.post("/start-instance", {"timeout": {"minutes": 5}})
-                try:
-                    w.post("/%s/begin-session" % rr.body["instance_uuid"], {"scenario_managers": ["smA"], "scenarios": ["base"],
-                                                                           "equations": [T_first_eq(cfg)]})
-                except Exception:
-                    pass
-            w.get("/save-state")
-            res.probe("save_state_after_eviction")
-        elif route == "load_state":
-            r = w.post("/load-state")
-            res.probe("loaded_via_load_state")
-            if r.status != 200:
-                res.violate("C19.3-request-failed-with-adapter", {"op": "load-state", "status": r.status})
-        else:
-            w.crash()
-            w.boot()
-            res.probe("loaded_via_restart")
-        log.add("load", route)
-        # ---- after
-        for j, iid in enumerate(ids):
-            if j not in externalised or state_before[j] is None:
-                continue
-            nsteps = len(state_before[j].get("results_log", {}))
-            after = observe(iid)
-            b = w.bptk_of(iid)
-            restored = norm(copy.deepcopy(b.session_state)) if b is not None and b.session_state else None
-            compared += 1 if nsteps >= 2 else 0
-            if after != before[j]:
-                res.violate("C19.1-results-differ-after-restore", {"inst": j, "route": route, "adapter": cfg["adapter"],
-                                                                   "start": cfg["model"]["start"], "dt": cfg["model"]["dt"],
-                                                                   "before": str(before[j][1])[:240], "after": str(after[1])[:240]})
-            if restored is None:
-                res.violate("C19.2-session-state-differs", {"inst": j, "field": "<whole state missing>", "route": route})
+        def cycle(cno):
+            route = case["load_route"] if cno == 0 else case.get("load_route2", case["load_route"])
+            # ---- before
+            def observe(iid):
+                a = w.get("/%s/session-results" % iid)
+                b = w.get("/%s/flat-session-results" % iid)
+                return [a.status, a.body if a.body is not None else a.text, b.status, b.body if b.body is not None else b.text]
+
+            before = {}
+            state_before = {}
+            for j, iid in enumerate(ids):
+                b = w.bptk_of(iid)
+                state_before[j] = norm(copy.deepcopy(b.session_state)) if b is not None and b.session_state else None
+                before[j] = observe(iid)
+            if case["save_route"] == "save_state":
+                r = w.get("/save-state")
+                res.probe("saved_via_save_state")
+                log.add("save_state", r.status)
+                if r.status != 200:
+                    res.violate("C19.3-request-failed-with-adapter", {"op": "save-state", "status": r.status})
+            # (0) saving does not disturb the live instance
+            for j, iid in enumerate(ids):
+                now = observe(iid)
+                b = w.bptk_of(iid)
+                live = norm(copy.deepcopy(b.session_state)) if b is not None and b.session_state else None
+                if now != before[j] or _strip(live) != _strip(state_before[j]):
+                    res.violate("C19.0-save-disturbed-live-instance", {"inst": j, "before": str(before[j])[:200], "after": str(now)[:200]})
+            externalised = {j for j, iid in enumerate(ids) if ("/state/%s.json" % iid) in w.fs.files}
+            if case.get("diverge") and cno == 0 and route in ("load_state", "restart"):
+                # the live instance moves away from what was saved through requests that do not write to the adapter
+                # (a session ended, another one begun but not stepped): loading brings the SAVED session back
+                res.probe("live_instance_diverged_from_saved")
+                for j, iid in enumerate(ids):
+                    if j not in externalised:
+                        continue
+                    if case["diverge"] == "end":
+                        w.post("/%s/end-session" % iid)
+                    else:
+                        w.post("/%s/begin-session" % iid, {"scenario_managers": ["smA"], "scenarios": ["base", "alt"],
+                                                           "equations": [T_first_eq(cfg)], "settings": {}})
+            # ---- load
+            if route == "timeout":
+                w.clock.advance(31 * 10**6)
+                w.get("/metrics", auth=False)
+                res.probe("loaded_via_timeout")
+            elif route == "timeout_then_save_state":
+                # the instances leave memory first, THEN somebody saves the whole server (which now holds nothing, or only
+                # a fresh instance): the externalised state of the evicted instances must survive that
+                w.clock.advance(31 * 10**6)
+                w.get("/metrics", auth=False)
+                if rng_bit(case):
+                    rr = w.post("/start-instance", {"timeout": {"minutes": 5}})
+                    try:
+                        w.post("/%s/begin-session" % rr.body["instance_uuid"], {"scenario_managers": ["smA"], "scenarios": ["base"],
+                                                                               "equations": [T_first_eq(cfg)]})
+                    except Exception:
+                        pass
+                w.get("/save-state")
+                res.probe("save_state_after_eviction")
+            elif route == "load_state":
+                r = w.post("/load-state")
+                res.probe("loaded_via_load_state")
+                if r.status != 200:
+                    res.violate("C19.3-request-failed-with-adapter", {"op": "load-state", "status": r.status})
             else:
-                sb, sa = _strip(state_before[j]), _strip(restored)
-                for field in sorted(set(sb) | set(sa)):
-                    if sb.get(field) != sa.get(field):
-                        res.violate("C19.2-session-state-differs", {"inst": j, "field": field, "route": route, "adapter": cfg["adapter"],
-                                                                    "before": str(sb.get(field))[:200], "after": str(sa.get(field))[:200]})
-                        break
-    res.nontrivial = compared > 0
+                w.crash()
+                w.boot()
+                res.probe("loaded_via_restart")
+            log.add("load", route)
+            # ---- after
+            for j, iid in enumerate(ids):
+                if j not in externalised or state_before[j] is None:
+                    continue
+                nsteps = len(state_before[j].get("results_log", {}))
+                after = observe(iid)
+                b = w.bptk_of(iid)
+                restored = norm(copy.deepcopy(b.session_state)) if b is not None and b.session_state else None
+                compared[0] += 1 if nsteps >= 2 else 0
+                if after != before[j]:
+                    res.violate("C19.1-results-differ-after-restore", {"inst": j, "route": route, "adapter": cfg["adapter"],
+                                                                       "start": cfg["model"]["start"], "dt": cfg["model"]["dt"],
+                                                                       "before": str(before[j][1])[:240], "after": str(after[1])[:240]})
+                if restored is None:
+                    res.violate("C19.2-session-state-differs", {"inst": j, "field": "<whole state missing>", "route": route})
+                else:
+                    sb, sa = _strip(state_before[j]), _strip(restored)
+                    for field in sorted(set(sb) | set(sa)):
+                        if sb.get(field) != sa.get(field):
+                            res.violate("C19.2-session-state-differs", {"inst": j, "field": field, "route": route, "adapter": cfg["adapter"],
+                                                                        "before": str(sb.get(field))[:200], "after": str(sa.get(field))[:200]})
+                            break
+
+        cycle(0)
+        if case.get("more") and not res.violations:
+            # a second save/load cycle on the SAME server and adapter object: the restored sessions are stepped further
+            # (each step is saved again), then leave memory / are reloaded again
+            res.probe("second_save_load_cycle")
+            for j, iid in enumerate(ids):
+                for o in case["more"]:
+                    if o["op"] == "step":
+                        r = w.post("/%s/run-step" % iid, {"settings": o["settings"]})
+                    else:
+                        r = w.post("/%s/run-steps" % iid, {"settings": o["settings"], "numberSteps": o["n"]})
+                    log.add("more", j, o["op"], r.status)
+            cycle(1)
+    res.nontrivial = compared[0] > 0
     res.digest = log.digest()
     return res
 
@@ -325,6 +359,14 @@ def shrink(case):
                 c = copy.deepcopy(case)
                 c["instances"][j]["ops"][n]["settings"] = {}
                 yield c
+    if case.get("more"):
+        c = copy.deepcopy(case)
+        c["more"] = None
+        yield c
+    if case.get("diverge"):
+        c = copy.deepcopy(case)
+        c["diverge"] = None
+        yield c
     for route in ("restart", "load_state"):
         if case["load_route"] != route:
             c = copy.deepcopy(case)
@@ -345,7 +387,7 @@ def shrink(case):
 
 
 def _all_ops(case):
-    return [o for inst in case["instances"] for o in inst["ops"]]
+    return [o for inst in case["instances"] for o in inst["ops"]] + list(case.get("more") or [])
 
 
 def trigger(case, v, f):
@@ -355,7 +397,8 @@ def trigger(case, v, f):
     if t == "compressed_and_grid_not_1_1":
         return comp and (m["start"] != 1.0 or m["dt"] != 1.0)
     if t == "compressed_and_nonuniform_settings":
-        return comp and any(len(_settings_shapes(i["ops"]) - set()) > 1 or "EMPTY" in _settings_shapes(i["ops"]) or "NONE" in _settings_shapes(i["ops"])
+        more = case.get("more") or []
+        return comp and any(len(_settings_shapes(i["ops"] + more) - set()) > 1 or "EMPTY" in _settings_shapes(i["ops"] + more) or "NONE" in _settings_shapes(i["ops"] + more)
                             for i in case["instances"])
     if t == "compressed_and_step_without_body":
         return comp and any(o["op"] == "step" and o.get("settings", 0) is None for o in _all_ops(case))
